@@ -358,10 +358,16 @@ pub fn hostile_workload(ctx: &mut Ctx, tag: u64, quick_n: u64, thorough_n: u64, 
                 sink(ctx, other, &s, "cross-format");
                 produced += 1;
             }
-            5 | 6 => {
+            5 => {
                 for _ in 0..8 {
                     let s = g.soup(&mut rng);
                     sink(ctx, f, &s, "token-soup");
+                    produced += 1;
+                }
+            }
+            6 => {
+                for s in g.long_names(&mut rng) {
+                    sink(ctx, f, &s, "long-atom-names");
                     produced += 1;
                 }
             }
